@@ -159,6 +159,9 @@ func (x *fsExec) onIdle() *sched.Action {
 				for ch := range x.rejecting {
 					delete(x.rejecting, ch)
 				}
+				for c := range x.targetDown {
+					delete(x.targetDown, c)
+				}
 				x.ev(fsEvent{Inc: inc.n, Kind: "resume", Key: id, Detail: st.Reason})
 				go func() {
 					_, err := inc.cdc.Resume(&request.ResumeRequest{TaskID: id})
@@ -515,6 +518,10 @@ func (x *fsExec) check() (viol []sched.Violation, summary string, nontrivial boo
 				if c := x.collByName(e.Detail); c != nil {
 					owners[x.taskOfColl(c.ID)] = "downstream-rejects-ddl"
 				}
+			case "target-fail":
+				if c := x.collByName(e.Detail); c != nil {
+					owners[x.taskOfColl(c.ID)] = "start-scan-lookup-fails"
+				}
 			case "pause":
 				manual[e.Key] = true
 			case "resume":
@@ -857,6 +864,11 @@ func fsC06Scenarios(thorough bool) []*fsScenario {
 		sc.Colls[0].Shards[0].Script = []fsPack{fpIns(1000), fpDrop(1050)}
 		sc.DDLFault = true
 		out = append(out, sc)
+		// the start-up scan of a resumed task fails (downstream lookups of StartReadCollection): the failure happens inside
+		// startInternal, before the task is back in its steady state
+		sc = mk("start-scan-fails")
+		sc.Pause, sc.TargetFault = true, true
+		out = append(out, sc)
 		// a message for a partition the downstream never gets
 		sc = mk("unknown-partition")
 		sc.Colls[0].UnknownPart = true
@@ -880,6 +892,9 @@ func fsExplore(t *testing.T, res *ev.Result, prop string, bound int, scs []*fsSc
 	e.MaxSteps = 900
 	e.Deadline = time.Now().Add(ev.Budget(budget))
 	e.OnExec = func(sc *sched.Scenario, choices []int) { fmt.Printf("EXEC %s %v\n", sc.Name, choices) }
+	if os.Getenv("VERIF_FREE") != "" {
+		e.Free, e.FreeRuns = true, 3
+	}
 	only := os.Getenv("VERIF_ONLY")
 	var wrapped []*sched.Scenario
 	var kept []*fsScenario
